@@ -303,6 +303,39 @@ def _percent_format(fn, counter: list) -> None:
 
     P().visit(fn)
 
+    # "a {} b {!r}".format(x, y)  ->  f"a {x} b {y!r}"   (auto-numbered fields without format specs only)
+    class F(ast.NodeTransformer):
+        def visit_Call(self, node):
+            self.generic_visit(node)
+            if isinstance(node.func, ast.Attribute) and node.func.attr == "format" and isinstance(node.func.value, ast.Constant) and isinstance(node.func.value.value, str) and not node.keywords and node.args and not any(isinstance(a, ast.Starred) for a in node.args):
+                tpl = node.func.value.value
+                parts = re.split(r"(\{\{|\}\}|\{(?:![rsa])?\})", tpl)
+                rest = "".join(p_ for p_ in parts if not re.fullmatch(r"\{\{|\}\}|\{(?:![rsa])?\}", p_ or ""))
+                if "{" in rest or "}" in rest:
+                    return node
+                fields = [p_ for p_ in parts if p_ and re.fullmatch(r"\{(?:![rsa])?\}", p_)]
+                if len(fields) != len(node.args):
+                    return node
+                vals, k = [], 0
+                for p_ in parts:
+                    if not p_:
+                        continue
+                    if re.fullmatch(r"\{(?:![rsa])?\}", p_):
+                        conv = ord(p_[2]) if len(p_) == 4 else -1
+                        vals.append(ast.FormattedValue(value=node.args[k], conversion=conv, format_spec=None))
+                        k += 1
+                    elif p_ == "{{":
+                        vals.append(ast.Constant(value="{"))
+                    elif p_ == "}}":
+                        vals.append(ast.Constant(value="}"))
+                    else:
+                        vals.append(ast.Constant(value=p_))
+                counter[0] += 1
+                return ast.copy_location(ast.JoinedStr(values=vals), node)
+            return node
+
+    F().visit(fn)
+
 
 def _drop_marked(stmts: list) -> list:
     out = []
@@ -835,4 +868,67 @@ def dead_alias_repo(repo) -> int:
     for f in list(repo.funcs.values()):
         if isinstance(f, FuncInfo) and f.outer is None:
             n += dead_alias_function(f.node)
+    return n
+
+
+# --------------------------------------------------------------------------- C19
+def append_loops_function(fn) -> int:
+    """C19: ``x = []`` directly followed by ``for t in S: x.append(E)`` (or ``if c: x.append(E)`` as the whole
+    body; ``x`` and the loop variables not mentioned otherwise in the loop, loop variables not read after it)
+    ->  ``x = [E for t in S if c]`` - the comprehension the loop spells out."""
+    done = 0
+    allnames: dict[str, int] = {}
+    for n in ast.walk(fn):
+        if isinstance(n, ast.Name):
+            allnames[n.id] = allnames.get(n.id, 0) + 1
+
+    def rec(stmts):
+        nonlocal done
+        for st in stmts:
+            if isinstance(st, (ast.FunctionDef, ast.AsyncFunctionDef, ast.ClassDef)):
+                continue
+            for fld, lst in list(_blocks(st)):
+                lst[:] = rec(lst)
+        out = []
+        i = 0
+        while i < len(stmts):
+            st = stmts[i]
+            nxt = stmts[i + 1] if i + 1 < len(stmts) else None
+            if isinstance(st, (ast.Assign, ast.AnnAssign)) and isinstance(getattr(st, "value", None), ast.List) and not st.value.elts and isinstance(nxt, ast.For) and not nxt.orelse and len(nxt.body) == 1:
+                tg = st.targets if isinstance(st, ast.Assign) else [st.target]
+                if len(tg) == 1 and isinstance(tg[0], ast.Name):
+                    x = tg[0].id
+                    inner = nxt.body[0]
+                    conds = []
+                    while isinstance(inner, ast.If) and not inner.orelse and len(inner.body) == 1:
+                        conds.append(inner.test)
+                        inner = inner.body[0]
+                    call = inner.value if isinstance(inner, ast.Expr) and isinstance(inner.value, ast.Call) else None
+                    if call is not None and isinstance(call.func, ast.Attribute) and call.func.attr == "append" and isinstance(call.func.value, ast.Name) and call.func.value.id == x and len(call.args) == 1 and not call.keywords:
+                        loopvars = {n.id for n in ast.walk(nxt.target) if isinstance(n, ast.Name)}
+                        in_loop = sum(1 for n in ast.walk(nxt) if isinstance(n, ast.Name) and n.id == x)
+                        lv_total = {v: allnames.get(v, 0) for v in loopvars}
+                        lv_loop = {v: sum(1 for n in ast.walk(nxt) if isinstance(n, ast.Name) and n.id == v) for v in loopvars}
+                        if in_loop == 1 and all(lv_total[v] == lv_loop[v] for v in loopvars) and not any(isinstance(n, (ast.Yield, ast.YieldFrom, ast.Await, ast.NamedExpr)) for n in ast.walk(nxt)):
+                            comp = ast.ListComp(elt=call.args[0], generators=[ast.comprehension(target=nxt.target, iter=nxt.iter, ifs=conds, is_async=0)])
+                            st.value = ast.copy_location(comp, nxt)
+                            out.append(st)
+                            done += 1
+                            i += 2
+                            continue
+            out.append(st)
+            i += 1
+        return out
+
+    fn.body = rec(fn.body)
+    if done:
+        _refresh(fn)
+    return done
+
+
+def append_loops_repo(repo) -> int:
+    n = 0
+    for f in list(repo.funcs.values()):
+        if isinstance(f, FuncInfo) and f.outer is None:
+            n += append_loops_function(f.node)
     return n
